@@ -234,11 +234,11 @@ def run(ctx):
     # binding C
     tids = {id(c) for c in typed}
     others = [c for c in cases if id(c) not in tids]
-    lim = 1000 if not ctx.thorough else 4000
+    lim = 600 if not ctx.thorough else 4000
     sub = others if len(others) <= lim else [others[i] for i in sorted(ctx.rng.sample(range(len(others)), lim))]
     fmt.audit(ctx, sub, "list")
     lq = [c for c in sub if c["indomain"] and c["answers"]]
-    audit_lookup(ctx, lq[: 400 if not ctx.thorough else 1500], "gen")
+    audit_lookup(ctx, lq[: 250 if not ctx.thorough else 1500], "gen")
     audit_typed(ctx, typed, 120 if not ctx.thorough else 1500)
 
     # binding B: seeded random texts; the spec derives the queries from its own listing
